@@ -74,6 +74,18 @@ def run_case(c):
     pbc = [bool(x) for x in c["pbc"]]
     cutoff = None if c["cutoff"] is None else c["cutoff"] / G
     out = {"id": c["id"]}
+    if c.get("twin") and any(pbc):
+        # process history, BEFORE anything else touches this structure: the same kind of call on a TWIN structure -- same edge
+        # lengths, same pbc, same cutoff, same number of atoms, but an orthogonal cell (state kept between calls and keyed on such
+        # scalar invariants would be reused for the examined structure)
+        try:
+            ln = np.linalg.norm(cell, axis=1)
+            twin_cell = np.diag(ln)
+            sc = np.linalg.solve(cell.T, pos.T).T
+            MG.get_displacement_tensor(sc @ twin_cell, twin_cell, pbc, cutoff=(float("inf") if cutoff is None else cutoff),
+                                       return_factors=True, return_distances=True)
+        except Exception:
+            pass
     N, next_ = copies_used(pos, cell, pbc, ext_length(cell.tolist(), pbc, cutoff))
     out["N"] = N
     out["n_ext"] = next_
